@@ -105,6 +105,8 @@ type PrefixScanPlan struct {
 	Filter  *FilterExec
 	Prefix  string
 	iter    Cursor
+	// The end of the prefix region has been seen, nothing more is read
+	done bool
 }
 
 func NewPrefixScanPlan(s Storage, f *FilterExec, p string) Plan {
@@ -116,6 +118,7 @@ func NewPrefixScanPlan(s Storage, f *FilterExec, p string) Plan {
 }
 
 func (p *PrefixScanPlan) Init() (err error) {
+	p.done = false
 	p.iter, err = p.Storage.Cursor()
 	if err != nil {
 		return err
@@ -125,17 +128,19 @@ func (p *PrefixScanPlan) Init() (err error) {
 
 func (p *PrefixScanPlan) Next(ctx *ExecuteCtx) ([]byte, []byte, error) {
 	pb := []byte(p.Prefix)
-	for {
+	for !p.done {
 		key, val, err := p.iter.Next()
 		if err != nil {
 			return nil, nil, err
 		}
 		if key == nil {
+			p.done = true
 			break
 		}
 
 		// Key not have the prefix
 		if !bytes.HasPrefix(key, pb) {
+			p.done = true
 			break
 		}
 
@@ -161,7 +166,7 @@ func (p *PrefixScanPlan) Batch(ctx *ExecuteCtx) ([]KVPair, error) {
 		chooseIdxes = make([]int, 0, 2*PlanBatchSize)
 		bidx        = 0
 	)
-	for !finish {
+	for !finish && !p.done {
 		filterBatch = filterBatch[:0]
 		for i := 0; i < PlanBatchSize; i++ {
 			key, val, err := p.iter.Next()
@@ -169,12 +174,12 @@ func (p *PrefixScanPlan) Batch(ctx *ExecuteCtx) ([]KVPair, error) {
 				return nil, err
 			}
 			if key == nil {
-				finish = true
+				p.done = true
 				break
 			}
 			// Key not have the prefix
 			if !bytes.HasPrefix(key, pb) {
-				finish = true
+				p.done = true
 				break
 			}
 			filterBatch = append(filterBatch, NewKVP(key, val))
@@ -215,6 +220,8 @@ type RangeScanPlan struct {
 	Start   []byte
 	End     []byte
 	iter    Cursor
+	// The end of the range has been seen, nothing more is read
+	done bool
 }
 
 func NewRangeScanPlan(s Storage, f *FilterExec, start []byte, end []byte) Plan {
@@ -227,6 +234,7 @@ func NewRangeScanPlan(s Storage, f *FilterExec, start []byte, end []byte) Plan {
 }
 
 func (p *RangeScanPlan) Init() (err error) {
+	p.done = false
 	p.iter, err = p.Storage.Cursor()
 	if err != nil {
 		return err
@@ -241,17 +249,19 @@ func (p *RangeScanPlan) Init() (err error) {
 }
 
 func (p *RangeScanPlan) Next(ctx *ExecuteCtx) ([]byte, []byte, error) {
-	for {
+	for !p.done {
 		key, val, err := p.iter.Next()
 		if err != nil {
 			return nil, nil, err
 		}
 		if key == nil {
+			p.done = true
 			break
 		}
 
 		// Key is greater than End
 		if p.End != nil && bytes.Compare(key, p.End) > 0 {
+			p.done = true
 			break
 		}
 
@@ -276,7 +286,7 @@ func (p *RangeScanPlan) Batch(ctx *ExecuteCtx) ([]KVPair, error) {
 		chooseIdxes = make([]int, 0, 2*PlanBatchSize)
 		bidx        = 0
 	)
-	for !finish {
+	for !finish && !p.done {
 		filterBatch = filterBatch[:0]
 		for i := 0; i < PlanBatchSize; i++ {
 			key, val, err := p.iter.Next()
@@ -284,12 +294,12 @@ func (p *RangeScanPlan) Batch(ctx *ExecuteCtx) ([]KVPair, error) {
 				return nil, err
 			}
 			if key == nil {
-				finish = true
+				p.done = true
 				break
 			}
 			// Key is greater than End
 			if p.End != nil && bytes.Compare(key, p.End) > 0 {
-				finish = true
+				p.done = true
 				break
 			}
 			filterBatch = append(filterBatch, NewKVP(key, val))
